@@ -31,7 +31,22 @@ from ..lean import fs
 from .common import instant, grid_json
 
 ID = 'periodic'
+PROPERTY = 'C13'
 TOL = 1e-9
+THEOREMS = [
+    ('EAO.Properties.C13', 'EAO.C13.merge_columns', 'merging columns along an idempotent leader map (costs summed, columns renamed, leaders compacted) is the original problem with leader bounds plus the equalities x_j = x_lead(j): rows, bounds, objective and dispatch read-out agree at z and z∘σ, and every x satisfying the equalities is such an expansion'),
+    ('EAO.Properties.C13', 'EAO.C13.merge_columns_value', 'the maximised value -c·x agrees'),
+    ('EAO.Properties.C13', 'EAO.C13.periodic_groups_sound', 'a variable that makePeriodic merges into another has a mapping row in the same (asset, node≠NaN, type, var_name, duration, position) group as its leader'),
+    ('EAO.Properties.C13', 'EAO.C13.periodic_groups_complete_counterexample', 'the converse fails for a coarse AND periodic asset (freq 2h, period 5h): finding F-13f'),
+    ('EAO.Properties.C13', 'EAO.C13.stepLabels_length', 'one (dur, per, sub_per) label per grid step'),
+    ('EAO.Properties.C13', 'EAO.C13.coarse_weights', 'for any incoming mapping row (with or without factor column) the rows written carry (dt_fine/dt_coarse)*f, one per minor step in order'),
+    ('EAO.Properties.C13', 'EAO.C13.coarse_weights_sum', 'per original row the written factors sum to f when dt_coarse = sum dt_fine != 0'),
+    ('EAO.Properties.C13', 'EAO.C13.coarse_constant_rate', 'volume on a minor step divided by its length is x*f/dt_coarse for every minor step'),
+    ('EAO.Properties.C13', 'EAO.C13.coarse_weights_extendMinor', 'the same for every output row of extendMinor, which keeps variable, asset, node, type, name of its coarse row'),
+    ('EAO.Properties.C13', 'EAO.C13.extendMinor_rows', 'the output is the concatenation of the rows written per coarse row, in order'),
+]
+KNOWN_KINDS = {'both_misaligned': 'F-13f', 'coarse_remainder': 'F-19b',
+               'coarse_take_first_minor': 'F-13g', 'periodic_chp': 'F-13d (not generated)'}
 
 
 # ------------------------------------------------------------------ small helpers
@@ -373,8 +388,7 @@ def request(case, impl_result):
     """list of (tag, request) for the driver"""
     reqs = []
     for i, e in enumerate(impl_result['ext']):
-        reqs.append(('ext%d' % i, {'op': 'extend_minor', 'mapping': e['arg'], 'coarse': e['coarse'], 'dt_fine': e['dt_fine'],
-                                   'has_factor': e['has_factor']}))
+        reqs.append(('ext%d' % i, {'op': 'extend_minor', 'mapping': e['arg'], 'coarse': e['coarse'], 'dt_fine': e['dt_fine']}))
     for i, e in enumerate(impl_result['per']):
         if 'err' in e['bounds']:
             continue
@@ -422,7 +436,7 @@ def compare(case, impl_result, drv):
     dis = []
     # --- coarse frequency
     for i, e in enumerate(impl_result['ext']):
-        m = drv.ok({'op': 'extend_minor', 'mapping': e['arg'], 'coarse': e['coarse'], 'dt_fine': e['dt_fine'], 'has_factor': e['has_factor']})
+        m = drv.ok({'op': 'extend_minor', 'mapping': e['arg'], 'coarse': e['coarse'], 'dt_fine': e['dt_fine']})
         if 'err' in m or 'err' in e['res']:
             if ('err' in m) != ('err' in e['res']) or m.get('err') != e['res'].get('err'):
                 dis.append('extend_minor call %d: %s (model) vs %s (impl)' % (i, m.get('err', 'ok'), e['res'].get('err', 'ok') if isinstance(e['res'], dict) else 'ok'))
@@ -690,10 +704,10 @@ def kind_facts(case, info):
     """classification of a violation by the known deviations"""
     opt = case['opt']
     t = case['focus']['type']
-    if 'freq' in opt and t in ('Transport', 'ExtendedTransport'):
-        return 'coarse_factor_accumulates'
     if 'freq' in opt and info.get('active') is not None and set(info['covered']) != set(info['active']):
         return 'coarse_remainder'
+    if 'freq' in opt and not case.get('uniform_dt', True) and ('max_take' in case['focus']['args'] or 'min_take' in case['focus']['args']):
+        return 'coarse_take_first_minor'
     if 'freq' in opt and 'periodicity' in opt:
         step = td(case['grid']['freq'])
         c = td(opt['freq']) / step
